@@ -45,7 +45,18 @@ NConts(usage) == Len(Ids(usage))
 -----------------------------------------------------------------------------
 (* Subscriber context (ChfUe) and its rating-group slots *)
 NewSlot == [rtype |-> "reserve", reserved |-> 0, ucost |-> 0, reqnum |-> 0]
-NewUe(n) == [rg |-> <<>>, notify |-> n, recs |-> <<>>, cdr |-> <<>>]
+\* `lim`: the operator's configuration (volumeLimit, volumeLimitPDU, quotaValidityTime, volumeThresholdRate as th/1024) is
+\* copied into the subscriber context when it is created (ChfUe.init) and decides which triggers accompany a grant
+NewUe(n, cfg) == [rg |-> <<>>, notify |-> n, recs |-> <<>>, cdr |-> <<>>, lim |-> cfg]
+DefaultCfg == [vl |-> 0, vlp |-> 0, qvt |-> 0, th |-> 512]
+\* what the reserve branch adds to a grant, in the order of the code: the subscriber's volume limit (deferred report), the PDU
+\* session's volume limit (immediate report; only with the FIRST usage entry of the request), the quota validity time
+LimitTrigs(lim, first) ==
+  (IF lim.vl # 0 THEN <<"VOLUME_LIMIT:DEFERRED_REPORT:" \o ToString(lim.vl)>> ELSE <<>>)
+  \o (IF lim.vlp # 0 /\ first THEN <<"VOLUME_LIMIT:IMMEDIATE_REPORT:" \o ToString(lim.vlp)>> ELSE <<>>)
+  \o (IF lim.qvt # 0 THEN <<"VALIDITY_TIME">> ELSE <<>>)
+HasOffline(us) == \E i \in 1..Len(us.conts) : us.conts[i].m = "off"
+OfflineThreshold == 30000000
 EmptyFn == <<>>   \* the function with empty domain
 
 -----------------------------------------------------------------------------
@@ -63,7 +74,7 @@ RateDebitPrice(used, cost)   == used * cost
 (* S = [st, mui, partial]; returns the same shape.                         *)
 \* flt = "abmf": the account balance function cannot be reached while this request is served (dial fails): the entry is
 \* dropped from the answer at the point where the account request would have been sent; what was done before stays
-CCEntry(S, u, us, trig, flt) ==
+CCEntry(S, u, us, trig, flt, first) ==
   LET st   == S.st
       ue0  == st.ue[u]
       g    == us.rg
@@ -99,7 +110,11 @@ CCEntry(S, u, us, trig, flt) ==
         slot2 == [slot1 EXCEPT !.reserved = r2, !.ucost = cost, !.reqnum = @ + 1,
                                !.rtype = IF ab.fui THEN "debit" ELSE @]
         info  == [rg |-> g, granted |-> grant, fui |-> ab.fui,
-                  trig |-> OfflineTrigs(us) \o (IF ab.fui THEN <<>> ELSE <<"QUOTA_THRESHOLD">>) \o <<"QUOTA_EXHAUSTED">>]
+                  trig |-> OfflineTrigs(us) \o (IF ab.fui THEN <<>> ELSE <<"QUOTA_THRESHOLD">>) \o <<"QUOTA_EXHAUSTED">>
+                           \o LimitTrigs(ue1.lim, first),
+                  vt   |-> ue1.lim.qvt,
+                  \* threshold of the grant while the rating group stays in reserve mode; otherwise what an offline container left
+                  thr  |-> IF ~ab.fui THEN (grant * ue1.lim.th) \div 1024 ELSE IF HasOffline(us) THEN OfflineThreshold ELSE 0]
     IN IF need /\ flt = "abmf"
          \* the reported usage has been taken off the reservation; no money moved, no answer for this rating group
          THEN [st |-> [st EXCEPT !.ue[u] = [ue1 EXCEPT !.rg[g] = [slot1 EXCEPT !.reserved = r1, !.ucost = cost]]],
@@ -114,7 +129,8 @@ CCEntry(S, u, us, trig, flt) ==
                            ELSE AbmfTermDebit(acc.quota, price - slot1.reserved)
         slot2 == [slot1 EXCEPT !.reserved = 0, !.reqnum = @ + 1,
                                !.rtype = IF refund THEN "reserve" ELSE "debit"]
-        info  == [rg |-> g, granted |-> 0, fui |-> FALSE, trig |-> OfflineTrigs(us) \o <<"QUOTA_EXHAUSTED">>]
+        info  == [rg |-> g, granted |-> 0, fui |-> FALSE, trig |-> OfflineTrigs(us) \o <<"QUOTA_EXHAUSTED">>,
+                  vt |-> 0, thr |-> IF HasOffline(us) THEN OfflineThreshold ELSE 0]
     IN IF flt = "abmf"
          \* neither refund nor final debit happened: the reservation stays (a refund had already switched the mode back)
          THEN [st |-> [st EXCEPT !.ue[u] = [ue1 EXCEPT !.rg[g] = [slot1 EXCEPT !.rtype = IF refund THEN "reserve" ELSE "debit"]]],
@@ -125,7 +141,7 @@ CCEntry(S, u, us, trig, flt) ==
 
 RECURSIVE CCFold(_, _, _, _, _, _)
 CCFold(S, u, usage, trig, flt, i) ==
-  IF i > Len(usage) THEN S ELSE CCFold(CCEntry(S, u, usage[i], trig, flt), u, usage, trig, flt, i + 1)
+  IF i > Len(usage) THEN S ELSE CCFold(CCEntry(S, u, usage[i], trig, flt, i = 1), u, usage, trig, flt, i + 1)
 CC(st, u, usage, trig, flt) == CCFold([st |-> st, mui |-> <<>>, partial |-> FALSE, panic |-> FALSE], u, usage, trig, flt, 1)
 FaultOf(a) == IF "fault" \in DOMAIN a THEN a.fault ELSE "none"
 
@@ -142,7 +158,7 @@ NewRec(ref, n, chid, consumer, subscriber, pad) ==
 (* create: a = [u, supi, c, onetime, usage, chid, pad, notify]  *)
 Create(st, a) ==
   LET u    == a.u
-      ue0  == IF u \in Dom(st.ue) THEN st.ue[u] ELSE NewUe("")
+      ue0  == IF u \in Dom(st.ue) THEN st.ue[u] ELSE NewUe("", st.cfg)
       ue1  == [ue0 EXCEPT !.notify = a.notify]
       ref  == IF a.onetime THEN "" ELSE RefOf(a.supi, a.c, st.lrsn)
       n    == st.lrsn + 1
